@@ -149,6 +149,34 @@ func (x *Exec) evalSpecBuiltin(c *evalCtx, fn string, a []Val) (Val, bool, error
 		r := x.decFn(decPrefix(bt)+"!Ciphertext", SStr, s(0))
 		x.Reg.Axiom("decEmpty:"+decPrefix(bt)+"!Ciphertext", "(= ("+sym(decPrefix(bt)+"!Ciphertext")+" \"\") \"\")")
 		return strV(r), true, nil
+	case "decField":
+		// decField("types.T", "Field", content): the field of the message that content encodes
+		mt := x.lookupNamed(strings.Trim(a[0].T.S, `"`))
+		if mt == nil {
+			return Val{}, true, fmt.Errorf("decField: unknown type %s", a[0].T.S)
+		}
+		fname := strings.Trim(a[1].T.S, `"`)
+		f := fieldByName(mt, fname)
+		if f == nil {
+			return Val{}, true, fmt.Errorf("decField: no field %s", fname)
+		}
+		name := decPrefix(mt) + "!" + fname
+		switch classifyField(f.Type()) {
+		case fkBytes:
+			return strV(x.decFn(name, SStr, s(2))), true, nil
+		case fkTimestamp:
+			return intV(Ite(x.decFn(name+"!nil", SBool, s(2)), IntT(0), x.decFn(name+"!ns", SInt, s(2)))), true, nil
+		case fkNested:
+			return Val{}, true, fmt.Errorf("decField: nested message field %s", fname)
+		default:
+			cs := comps(f.Type())
+			ts := make([]Term, len(cs))
+			for i, cp := range cs {
+				ts[i] = x.decFn(name+cp.Suffix, cp.Sort, s(2))
+			}
+			v, _ := unflatten(f.Type(), ts)
+			return v, true, nil
+		}
 	case "wfMsg":
 		// wfMsg(msgOrTypeName, content)
 		if a[0].T.Sort == SStr {
@@ -585,6 +613,10 @@ func (x *Exec) zeroTime() Term {
 }
 
 func (x *Exec) readClock(st *State) Term {
+	if x.ClockInstant && len(st.Clock) > 0 {
+		st.Clock = append(st.Clock, st.Clock[0])
+		return st.Clock[0]
+	}
 	t := x.fresh(st, "clk", SInt)
 	if n := len(st.Clock); n > 0 {
 		st.assume(Ge(t, st.Clock[n-1]))
@@ -598,6 +630,11 @@ func (x *Exec) readClock(st *State) Term {
 // ---------------------------------------------------------------- protobuf
 
 func msgArg(v Val) (types.Type, Term, bool) {
+	if v.K == VScalar && v.GoT != nil {
+		if pt, ok := v.GoT.Underlying().(*types.Pointer); ok && isStructVal(pt.Elem()) {
+			return pt.Elem(), v.T, true
+		}
+	}
 	if v.K == VIface && v.Dyn != nil {
 		if pt, ok := v.Dyn.Underlying().(*types.Pointer); ok && isStructVal(pt.Elem()) {
 			return pt.Elem(), v.Payload.T, true
